@@ -772,8 +772,10 @@ impl<W, R, T> CompilationScope<'_, W, R, T> {
                 Ok(XStaticExpr::Array(parts))
             }
             Rule::tuple => {
-                let mut iter = input.into_inner();
-                let parts = iter.next().map_or_else(
+                let mut iter = input.into_inner().peekable();
+                let elements = iter.next_if(|p| p.as_rule() == Rule::container_elements);
+                let has_trailing_comma = iter.next().is_some();
+                let mut parts: Vec<_> = elements.map_or_else(
                     || Ok(vec![]),
                     |c| {
                         c.into_inner()
@@ -781,6 +783,10 @@ impl<W, R, T> CompilationScope<'_, W, R, T> {
                             .collect()
                     },
                 )?;
+                if parts.len() == 1 && !has_trailing_comma {
+                    // `(e)` is a parenthesised expression, `(e,)` a one-element tuple
+                    return Ok(parts.pop().unwrap());
+                }
                 Ok(XStaticExpr::Tuple(parts))
             }
             Rule::turbofish_cname => {
